@@ -418,7 +418,15 @@ impl<'r> G<'r> {
                 _ => format!("{}", self.rng.below(5)),
             }
         } else {
-            self.rng.s(&["hello", "", " padded ", "\"quoted, text\"", "a,b", "7", "x:y", "\"  keep  \"", "2.50"]).to_string()
+            self.rng.s(&["hello", "", " padded ", "\"quoted, text\"", "a,b", "7", "x:y", "\"  keep  \"", "2.50",
+                // numerals given to a string variable are stored the way the number prints: boundaries of the integer types
+                "10000000000000000000", "4611686018427387904", "-0", "123456789012345678901234567890", "9007199254740993",
+                "18446744073709551616", "-0.0", "007", "+5", "-9223372036854775809", ".5", "100000000000000000000000"]).to_string()
+        };
+        let good = if numeric && self.rng.chance(1, 8) {
+            self.rng.s(&["10000000000000000000", "-0", "123456789012345678901234567890", "9007199254740993", "+5", ".5", "007", "-.25"]).to_string()
+        } else {
+            good
         };
         self.out.replies.push(good);
         Stmt::Input(target)
